@@ -26,7 +26,7 @@ package standard
 //
 // ONE wired instance per history.  Steps: Fetch (fetch job), Act (a validator becomes active: route "epoch" = the
 // beacon node now reports its activation, route "import" = its account file appears in the wallet; manager refreshed),
-// Round (registration job), Prep (UpdatePreparations), Call fwd (ValidatorRegistrations with a foreign-made
+// Round (registration job, or its sibling the exported SubmitValidatorRegistrations), Prep (UpdatePreparations), Call fwd (ValidatorRegistrations with a foreign-made
 // registration), Call unblind (UnblindBlock), Call auction (AuctionBlock), Call bid (BuilderBid, no cached bid).
 // A goroutine panic is a Crash line, a step that does not return a Hung line (watchdog); neither is allowed by the
 // trace specification.
@@ -105,6 +105,7 @@ type c11wStep struct {
 	Kind    string    `json:"kind"`
 	V       int       `json:"v"`
 	Route   string    `json:"route"`
+	Via     string    `json:"via"`
 }
 
 type c11wScenario struct {
@@ -792,7 +793,7 @@ func c11wNewInstance(w *c11wWorld, tr *verifsupport.Trace, sc int, reset c11wSte
 	}) {
 		return in
 	}
-	in.roundLine()
+	in.roundLine("job")
 	return in
 }
 
@@ -804,7 +805,7 @@ func (in *c11wInstance) close() {
 }
 
 // roundLine writes what a registration round let the outside see.
-func (in *c11wInstance) roundLine() {
+func (in *c11wInstance) roundLine(via string) {
 	regs := in.book.takeRegs()
 	rows := [][4]int{}
 	sigok := true
@@ -822,7 +823,7 @@ func (in *c11wInstance) roundLine() {
 		nrows = append(nrows, n)
 	}
 	sort.Slice(nrows, func(i, j int) bool { return fmt.Sprint(nrows[i]) < fmt.Sprint(nrows[j]) })
-	in.emit(verifsupport.Ev{"ev": "Round", "vs": in.acc.lastListed(), "regs": rows, "sigok": sigok, "nodes": nrows})
+	in.emit(verifsupport.Ev{"ev": "Round", "via": via, "vs": in.acc.lastListed(), "regs": rows, "sigok": sigok, "nodes": nrows})
 }
 
 func (in *c11wInstance) fetch(st c11wStep) {
@@ -849,14 +850,29 @@ func (in *c11wInstance) act(st c11wStep) {
 	in.emit(verifsupport.Ev{"ev": "Act", "v": st.V, "route": st.Route, "now": in.listing()})
 }
 
-func (in *c11wInstance) round() {
+// round runs the registration job, or ("api") its sibling implementation: the exported SubmitValidatorRegistrations of
+// blockrelay.ValidatorRegistrationsSubmitter, handed the accounts the account manager lists for the next epoch.
+func (in *c11wInstance) round(via string) {
+	if via == "" {
+		via = "job"
+	}
 	in.acc.forget()
 	in.book.takeRegs()
 	in.book.takeNodeRegs()
-	if !in.guarded("round", func() { in.sched.Get(c11RegisterJob).Func(in.ctx) }) {
+	if !in.guarded("round", func() {
+		if via == "job" {
+			in.sched.Get(c11RegisterJob).Func(in.ctx)
+			return
+		}
+		accounts, err := in.acc.ValidatingAccountsForEpoch(in.ctx, in.ct.CurrentEpoch()+1)
+		if err != nil {
+			panic(fmt.Sprintf("listing: %v", err))
+		}
+		_ = blockrelay.ValidatorRegistrationsSubmitter(in.svc).SubmitValidatorRegistrations(in.ctx, accounts)
+	}) {
 		return
 	}
-	in.roundLine()
+	in.roundLine(via)
 }
 
 func (in *c11wInstance) prepare() {
@@ -1018,7 +1034,7 @@ func c11wRunScenario(w *c11wWorld, tr *verifsupport.Trace, sc c11wScenario) {
 		case "Act":
 			in.act(st)
 		case "Round":
-			in.round()
+			in.round(st.Via)
 		case "Prep":
 			in.prepare()
 		case "Call":
